@@ -219,6 +219,16 @@ class FnTranslator:
             if key.startswith("self.") or key in self.types:
                 return self.param(key)
             self.err(node, "attribute %s" % key)
+        if isinstance(node, ast.Subscript):
+            # (additive, C07/C08) an indexed read such as `session.max_rates[0]` or
+            # `infrastructure.voltages[i]` is accepted only when the anchor declares its type:
+            # it becomes a parameter (the hand-written model supplies the element).
+            key = self.txt(node)
+            if key in env:
+                return env[key]
+            if key in self.types:
+                return self.param(key)
+            self.err(node, "subscript %s (declare it in types)" % key)
         if isinstance(node, ast.UnaryOp):
             a, t = self.expr(node.operand, env)
             if isinstance(node.op, ast.USub) and t == "num":
@@ -404,6 +414,25 @@ class FnTranslator:
             return ("(%s %s)" % (o["exp"], x), "num")
         if f == "float" and len(args) == 1 and isinstance(args[0], ast.Constant) and args[0].value == "inf":
             self.err(node, "float('inf')")
+        if f == "float" and len(args) == 1 and not node.keywords and not isinstance(args[0], ast.Constant):
+            # (additive, C07) float(<numeric expression>) is the identity on the carriers
+            (x,) = nums(args)
+            return (x, "num")
+        if f == "np.clip":
+            # (additive, C07) scalar np.clip(x, a_min, a_max) = minimum(maximum(x, a_min), a_max)
+            kw = {k.arg: k.value for k in node.keywords}
+            pos = list(args)
+            names = ["a", "a_min", "a_max"]
+            vals = {}
+            for nm, a in zip(names, pos):
+                vals[nm] = a
+            for nm in names:
+                if nm in kw:
+                    vals[nm] = kw[nm]
+            if set(vals) != set(names) or len(pos) + len(kw) != 3:
+                self.err(node, "np.clip needs exactly a, a_min, a_max")
+            x, lo, hi = nums([vals["a"], vals["a_min"], vals["a_max"]])
+            return ("(%s (%s %s %s) %s)" % (o["min"], o["max"], x, lo, hi), "num")
         if f == "np.isclose":
             kw = {k.arg: k.value for k in node.keywords}
             if len(args) != 2:
